@@ -362,4 +362,141 @@ theorem ubShell_sim (c : Board.Case) (u : UbCfg) (start : Nat) (b : BS) (m : Mon
     · show step c m1 (.ubReady b1.st.now) = some { m1 with ph := .ubUp, lastT := b1.st.now }
       simp [step, hph1, h.cfg, hhit1, hc1.mstart, hw1]
 
+
+/-- entering the U-Boot machine, from power-on -/
+theorem ubUp_sim (c : Board.Case) (u : UbCfg) (b : BS) (m : Mon) (h : UCtx c u b.st.now [] b m) (hok : UbOk u)
+    (hcap : ∀ T', u.timeout = some T' → b.st.now + T' + poll ≤ c.cap)
+    (hf : Fresh b m) (hph : m.ph = if u.autoboot.isSome then .ubAuto else .ubLoop)
+    (hset : m.ubSet = u.autoboot.isNone) (hlog : b.ubLog = none) :
+    match ubUp u c.cap b with
+    | (.ok _, b') => ∃ m', UUp c b' m' ∧ m'.ph = .ubUp
+    | (.error e, b') => ∃ m', Final c b' m' (some e) := by
+  unfold ubUp
+  have h1 : match ubAutoStage u b.st.now b with
+      | (.ok _, b') => ∃ m', UCtx c u b.st.now [] b' m' ∧ Fresh b' m' ∧ m'.ph = .ubLoop ∧ m'.ubSet = true
+          ∧ within u.timeout b.st.now b'.st.now = true
+      | (.error e, b') => ∃ m', Final c b' m' (some e) := by
+    unfold ubAutoStage
+    cases hauto : u.autoboot with
+    | none =>
+      rw [hauto] at hph hset
+      exact ⟨m, h, hf, hph, hset, within_of_dead fun T' _ => Nat.le_add_right _ _⟩
+    | some p =>
+      rw [hauto] at hph hset
+      have := ubAutoboot_sim c u b m h hok hf hph p hauto hset hlog
+      dsimp only
+      generalize ubAutoboot u p b.st.now b = out at this
+      obtain ⟨r, b'⟩ := out
+      cases r with
+      | error e => exact this
+      | ok v =>
+        obtain ⟨m', h1, h2, h3, h4, _, h6, _⟩ := this
+        exact ⟨m', h1, h2, h3, h4, h6⟩
+  generalize ubAutoStage u b.st.now b = out at h1
+  obtain ⟨r1, b1⟩ := out
+  cases r1 with
+  | error e => exact h1
+  | ok v1 =>
+    obtain ⟨m1, hc1, hf1, hph1, hset1, hdl1⟩ := h1
+    dsimp only
+    have := ubShell_sim c u b.st.now b1 m1 hc1 hcap hf1 hph1 hset1 (by
+      intro T' hT
+      have := le_of_within hT hdl1
+      omega)
+    generalize ubShell u b.st.now c.cap b1 = out at this
+    obtain ⟨r2, b2⟩ := out
+    cases r2 with
+    | error e => exact this
+    | ok v2 =>
+      obtain ⟨m2, hup, hstep⟩ := this
+      dsimp only
+      refine ⟨{ m2 with ph := .ubUp, lastT := b2.st.now }, ⟨⟨?_, hup.inv.calm, hup.inv.accept, hup.inv.slow, hup.inv.slice,
+        hup.inv.con, hup.inv.ulog, hup.inv.llog⟩, hup.streams, rfl, hup.ubLog, hup.ubSet, hup.lnxSet, hup.lnxLog, hup.blacklist⟩, rfl⟩
+      show steps c {} (b2.evs ++ [.ubReady b2.st.now]) = _
+      rw [steps_append, hup.inv.mon]
+      simp only [Option.bind, steps, hstep]
+
+theorem bootLine_ok : forbidden Params.ubootBlacklist bootLine = false ∧ bootLine.length ≤ Params.sendSliceSize
+    ∧ bootLine ≠ [] := by decide
+
+/-- `LinuxUbootConnector._connect` once the U-Boot machine is up: `boot`, and the Linux stage begins -/
+theorem sendRb_sim (c : Board.Case) (l : LnxCfg) (b : BS) (m : Mon) (h : UUp c b m) (hph : m.ph = .ubUp)
+    (hcfg : c.lnx = some l) (hok : LnxOk l Params.ubootBlacklist) (buf : Bytes) (hbuf : buf = bootLine)
+    (hbl : forbidden Params.ubootBlacklist buf = false) (hlen : buf.length ≤ Params.sendSliceSize) (hne : buf ≠ []) :
+    match (match sendRb buf b with
+           | (.error e, b) => ((.error e, b) : R Unit)
+           | (.ok _, b) => (.ok (), mark .booted b)) with
+    | (.ok _, b') => ∃ m', LOut c l b'.st.now b' m' ∧ Fresh b' m' ∧ m'.ph = (if l.askfirst.isSome then .ask else .login1)
+    | (.error e, b') => ∃ m', Final c b' m' (some e) := by
+  unfold sendRb
+  have hbl' : forbidden b.st.blacklist buf = false := by rw [h.blacklist]; exact hbl
+  have hlen' : buf.length ≤ b.st.slice := by rw [h.inv.slice]; exact hlen
+  have hop : send buf false none false { b.st with writes := [] }
+      = (.ok (), { b.st with writes := [(buf, buf.length)] }) :=
+    send_one buf false { b.st with writes := [] } hne hlen' h.inv.accept h.inv.slow (Or.inr hbl')
+  have hstep : step c m (.wr b.st.now buf) = some (wait .bootSent b.st.now b.st.now m) := by
+    simp [step, hph, hcfg, hbuf, h.lastT]
+  obtain ⟨hok1, hinv1, hsim1⟩ := sim_wr c b m h.inv _ _ hop _ hstep rfl rfl
+  generalize wr (send buf false none false) b = out at hok1 hinv1 hsim1
+  obtain ⟨r1, b1⟩ := out
+  simp only at hok1 hinv1 hsim1
+  subst hok1
+  dsimp only
+  -- the read-back
+  obtain ⟨recs, hrd, hokn, herrn⟩ := readn_out (buf.length + countNl buf)
+    { b1.st with reads := [] } hinv1.calm.cutReads
+  obtain ⟨hinv2, hsim2, hst2⟩ := sim_rd (read (some (buf.length + countNl buf)) none)
+    c b1 (wait .bootSent b.st.now b.st.now m) hinv1 rfl (by show b.st.now = b1.st.now; rw [hsim1.now])
+    (by rw [hsim1.streams, h.streams]; rfl) none b1.st.now recs hrd
+  have hres : (rd (read (some (buf.length + countNl buf)) none) b1).1
+      = (read (some (buf.length + countNl buf)) none { b1.st with reads := [] }).1 := rfl
+  generalize hm2 : rdAll (awaited c (wait .bootSent b.st.now b.st.now m).ph) (logId (wait .bootSent b.st.now b.st.now m).ph)
+    (wait .bootSent b.st.now b.st.now m) recs = m2 at hinv2 hsim2
+  have hacc2 : m2.acc = (dataOf recs).flatten := by rw [← hm2, rdAll_eq]; rfl
+  have hul2 : m2.ulog = m.ulog := by rw [hsim2.ulog (by show logId Ph.bootSent ≠ 1; decide)]; rfl
+  have hubLog2 : (rd (read (some (buf.length + countNl buf)) none) b1).2.ubLog
+      = some m2.ulog := by rw [hsim2.ubLog, hsim1.ubLog, hul2]; exact h.ubLog
+  have hlnxLog2 : (rd (read (some (buf.length + countNl buf)) none) b1).2.lnxLog
+      = none := by rw [hsim2.lnxLog, hsim1.lnxLog]; exact h.lnxLog
+  have hbl2 : (rd (read (some (buf.length + countNl buf)) none) b1).2.st.blacklist
+      = Params.ubootBlacklist := by rw [hsim2.blacklist, hsim1.blacklist]; exact h.blacklist
+  have hstr2 : (rd (read (some (buf.length + countNl buf)) none) b1).2.st.streams
+      = [] := by rw [hsim2.streams, hsim1.streams]; exact h.streams
+  generalize rd (read (some (buf.length + countNl buf)) none) b1 = out
+    at hinv2 hsim2 hst2 hres hubLog2 hlnxLog2 hbl2 hstr2
+  obtain ⟨r2, b2⟩ := out
+  simp only at hinv2 hsim2 hst2 hres hubLog2 hlnxLog2 hbl2 hstr2
+  have hph2 : m2.ph = .bootSent := by rw [hsim2.ph]; rfl
+  have hset2 : m2.ubSet = true := by rw [hsim2.ubSet]; exact h.ubSet
+  have hlset2 : m2.lnxSet = false := by rw [hsim2.lnxSet]; exact h.lnxSet
+  cases r2 with
+  | error e =>
+    dsimp only
+    have he := herrn e hres.symm
+    subst he
+    refine ⟨m2, hinv2.mon, ?_, by rw [hset2]; exact hubLog2, by rw [hlset2]; exact hlnxLog2⟩
+    simp [accept, hph2, hsim2.lastT]
+  | ok v =>
+    dsimp only
+    have hn := hokn v hres.symm
+    have hstep2 : step c m2 (.booted b2.st.now) = some (enterLnx l b2.st.now m2) := by
+      simp [step, hph2, hcfg, hacc2, hn, hbuf, hsim2.lastT]
+    refine ⟨enterLnx l b2.st.now m2, ⟨⟨?_, hinv2.calm, hinv2.accept, hinv2.slow, hinv2.slice, hinv2.con, hinv2.ulog, hinv2.llog⟩,
+      hcfg, by show LnxOk l b2.st.blacklist; rw [hbl2]; exact hok, hstr2, rfl, rfl, within_of_dead fun T' _ => Nat.le_add_right _ _, ?_, rfl, Nat.le_refl _⟩,
+      ⟨rfl, rfl, rfl⟩, rfl⟩
+    · show steps c {} (b2.evs ++ [.booted b2.st.now]) = _
+      rw [steps_append, hinv2.mon]
+      simp only [Option.bind, steps, hstep2]
+    · show b2.ubLog = if (enterLnx l b2.st.now m2).ubSet then some (enterLnx l b2.st.now m2).ulog else none
+      show b2.ubLog = if m2.ubSet then some m2.ulog else none
+      rw [hset2]; exact hubLog2
+
+theorem ubBoot_sim (c : Board.Case) (l : LnxCfg) (b : BS) (m : Mon) (h : UUp c b m) (hph : m.ph = .ubUp)
+    (hcfg : c.lnx = some l) (hok : LnxOk l Params.ubootBlacklist) :
+    match ubBoot b with
+    | (.ok _, b') => ∃ m', LOut c l b'.st.now b' m' ∧ Fresh b' m' ∧ m'.ph = (if l.askfirst.isSome then .ask else .login1)
+    | (.error e, b') => ∃ m', Final c b' m' (some e) := by
+  obtain ⟨hbl, hlen, hne⟩ := bootLine_ok
+  exact sendRb_sim c l b m h hph hcfg hok bootLine rfl hbl hlen hne
+
 end Board
